@@ -69,6 +69,7 @@ func (r *Eval) Run(ctx context.Context, script []byte) (Object, *Bytecode, error
 func (r *Eval) run(ctx context.Context) (ret Object, err error) {
 	ret = Undefined
 	doneCh := make(chan struct{})
+	verifSync("eval.before-check", r.VM)
 	// Always check whether context is done before running VM because
 	// parser and compiler may take longer than expected or context may be
 	// canceled for any reason before run, so use two selects.
@@ -81,6 +82,7 @@ func (r *Eval) run(ctx context.Context) (ret Object, err error) {
 			defer close(doneCh)
 			ret, err = r.VM.Run(r.Globals, r.Locals...)
 		}()
+		verifSync("eval.started", r.VM)
 
 		select {
 		case <-ctx.Done():
